@@ -54,6 +54,24 @@ func runC06History(r *rand.Rand, h *c01hist) (key, what string) {
 		if nt > 0 {
 			h.flags["transient_written"] = true
 		}
+		if prev > 0 && r.Intn(5) == 0 {
+			// C abandons a partly executed block: transient and persistent writes, no Commit, then the same store object is
+			// reloaded at its last committed version (what a node does when it discards a block); nothing of it may survive
+			for j, m := 0, 2+r.Intn(6); j < m; j++ {
+				_ = c.ms.GetKVStore(c.tkey).Set(kg.Key(r), []byte(fmt.Sprintf("abandoned%d", j)))
+				_ = c.ms.GetKVStore(c.keys[r.Intn(nStores)]).Set(kg.Key(r), []byte(fmt.Sprintf("abandoned%d", j)))
+			}
+			if err := c.ms.LoadLatestVersion(); err != nil {
+				return "reload-error", fmt.Sprintf("LoadLatestVersion on the loaded store after block %d: %v", i, err)
+			}
+			h.counts["abandoned_blocks_reloaded"]++
+			if got, err := readAll(c.ms.GetKVStore(c.tkey)); err != nil || len(got) != 0 {
+				return "transient-leak/after-reload", fmt.Sprintf("transient store holds %d entries at the start of block %d, after the node reloaded version %d and abandoned a partly executed block: %v (err %v)", len(got), i+1, prev, got, err)
+			}
+			if got := c.ms.LastCommitID(); got.Version != prev {
+				return "reload-version", fmt.Sprintf("after reloading, LastCommitID is version %d, want %d", got.Version, prev)
+			}
+		}
 		ca := a.apply(blk)
 		cb := b.apply(blk)
 		// C: extra transient noise before and after the block's writes, plus reads
@@ -101,7 +119,7 @@ func runC06History(r *rand.Rand, h *c01hist) (key, what string) {
 
 func checkC06(r *ev.Run) {
 	n := r.N(1500, 20000)
-	r.Rule("history = 5-34 generated blocks on three rootmulti stores fed identical persistent writes: A with the generated transient writes, B with no transient store mounted, C with 5-24 extra transient writes per block, reversed mount order and interleaved reads (point, full iteration, lazy historical). Checked at every block: version == previous+1, non-empty hash, hash(A)==hash(B)==hash(C), LastCommitID == Commit result, transient store empty at first access after each commit and readable within the block. Non-trivial = transient writes present and >=5 commits; distinct = block-script digest. (Node-level BeginBlock check is part of the E3 chain monitors.)")
+	r.Rule("history = 5-34 generated blocks on three rootmulti stores fed identical persistent writes: A with the generated transient writes, B with no transient store mounted, C with 5-24 extra transient writes per block, reversed mount order, interleaved reads (point, full iteration, lazy historical) and, before one block in five, a partly executed block that is abandoned by reloading the same store object at its last committed version. Checked at every block: version == previous+1, non-empty hash, hash(A)==hash(B)==hash(C), LastCommitID == Commit result, transient store empty at first access after each commit and readable within the block. Non-trivial = transient writes present and >=5 commits; distinct = block-script digest. (Node-level BeginBlock check is part of the E3 chain monitors.)")
 	ev.ForEach(n, workers(), func(i int) {
 		if r.Only != "" && r.Only != "*" && r.Only != fmt.Sprint(i) {
 			return
